@@ -810,6 +810,8 @@ class QueryPlanner:
     def from_query(self, query=None):
         self.plan = QueryPlan()
         self.cte_names = set()
+        # results of the common table expressions of an earlier statement planned with this object must not be visible to this one
+        self.cte_results = {}
 
         if query is None:
             query = self.query
